@@ -38,6 +38,8 @@ def run(prop, tier, rep):
         backend = "cpython-exec-on-opaque-parts"
         if o.get("bounded"):
             rep.bounded.append(dict(obligation=o["id"], bound=o["bounded"], ok=o["ok"]))
+        for h in o.get("known_hits", []) or []:
+            present.setdefault(h, []).append(o["id"])
         if o["ok"]:
             rep.add_obligation(prop + "/" + o["id"], "proved", backend, 0.0, o.get("detail", ""))
             continue
